@@ -258,6 +258,13 @@ def analyse_cont(mod, fname, bits, thr_ulp, binades=False, abs_floor=None):
     return out
 
 
+def _src_chain(inst):
+    try:
+        return ' <- '.join('%s:%s' % (f, l) for (f, l, fn) in (inst.get('dbg', []) if inst else [])[:5])
+    except Exception:
+        return ''
+
+
 def path_allows(assumed, ev, track):
     """does the control path (whole-batch conditions `assumed`) allow a batch whose tracked lane holds the point of `ev`?
     True / False, or None when a condition on the tracked lane is not understood.  any(M) / all(M) / none(M) constrain the
@@ -353,6 +360,7 @@ def analyse_paths(mod, fname, bits, thr_ulp, abs_floor=None):
                 out['undecided_paths'] += 1
             if not pa:
                 continue
+            n_ov = len(ev.overflows)
             try:
                 v = ev.fval_abs(term)
             except (PE.Unevaluable, ZeroDivisionError, OverflowError, KeyError, ValueError, RecursionError) as e:
@@ -360,6 +368,12 @@ def analyse_paths(mod, fname, bits, thr_ulp, abs_floor=None):
                 continue
             if v.special or v.iv.mag() > huge or (abs_floor is None and (v.iv.mag() < tiny or v.iv.mig() == 0)):
                 continue
+            if len(ev.overflows) > n_ov:
+                # the result is a finite normal number although an intermediate on the evaluated (taken) data path exceeds
+                # the largest finite number of its format: the machine computes inf (or NaN from inf - inf, inf * 0) there
+                o = ev.overflows[n_ov]
+                out.setdefault('overflow_cells', []).append({'x': float(x), 'x_exact': str(x), 'path': ''.join('TF'[not b] for b in prefix), 'value': float(v.iv.mid()),
+                                                            'op': o[0], 'log10_magnitude': round(o[2], 1), 'source': _src_chain(o[3])})
             vals.append((v.iv, prefix))
         if len(vals) < 2:
             continue
